@@ -19,6 +19,7 @@ size_t drive( celma::container::DynamicBitset& bs, const celma::container::Dynam
    auto  i2 = cbs.end();  --i2;  i2--;
    auto  i3 = bs.rend();  --i3;  i3--;
    auto  i4 = cbs.rend(); --i4;  i4--;
+   sum += cbs.to_string().length() + cbs.to_string< char>( 'o', 'x').length();
    return sum + *i1 + *i2 + *i3 + *i4;
 }
 
